@@ -129,7 +129,7 @@ class Hist:
     """One history, built from real dulwich objects; the graph is recorded by construction."""
 
     __slots__ = ("dag", "trees", "deco", "objs", "raw", "edges", "parents", "commits", "refs", "head", "tagrefs",
-                 "tag_target", "orphans", "sinks", "anc", "dirs", "mem")
+                 "tag_target", "orphans", "sinks", "anc", "dirs", "mem", "sender_ids", "alien")
 
 
 _HMEMO = [None, None]
@@ -232,6 +232,18 @@ def history(dag, trees, deco) -> Hist:
     tagX = tag(b"dangling", Commit, cX)
     bY = extra(Blob.from_string(b"dangling blob\n"), ())
     h.orphans = {"commit": cX, "tree": tX.id, "blob": bX, "tag": tagX, "blob2": bY}
+    h.sender_ids = frozenset(h.objs)
+    # commits only the RECEIVER has (local work on top of what it got earlier): unknown to the sender
+    bZ = extra(Blob.from_string(_lines(11, b"receiver-only work\n")), ())
+    tZ = Tree()
+    tZ.add(b"f", 0o100644, bZ)
+    tZ.add(b"w", 0o100644, bZ)
+    extra(tZ, (bZ,))
+    h.alien = {}
+    for i in [None] + list(range(n)):
+        cZ = commit(tZ.id, [] if i is None else [h.commits[i]], 8000 + (i or 0), b"local work\n")
+        del h.parents[cZ]
+        h.alien[i] = cZ
     h.raw = {oid: (o.type_num, o.as_raw_string()) for oid, o in h.objs.items()}
     reach = ref.closure(h.edges, h.refs.values())
     if any(o in reach for o in h.orphans.values()):
@@ -256,8 +268,10 @@ def want_sets(h, maxrefs=3):
     return [w for k in range(1, maxrefs + 1) for w in itertools.combinations(names, k)]
 
 
-def receiver_states(h, families=("h", "r"), with_tag=True):
-    """-> list of (downset, family, rtag)."""
+def receiver_states(h, families=("h", "r"), with_tag=True, with_alien=False):
+    """-> list of (downset, family, variant); variant 0 = exactly the closure of the downset,
+    1 = plus the decoration tag (objects + ref), 2 = plus a branch with a commit of its own that
+    the sender has never seen (child of the newest commit of the downset)."""
     out = []
     n = len(h.dag)
     for D in E.downsets(h.dag):
@@ -269,6 +283,8 @@ def receiver_states(h, families=("h", "r"), with_tag=True):
                 t = ref.peel(h.tag_target, [h.tagrefs[sorted(h.tagrefs)[-1]]])[0]
                 if t not in h.parents or (n - 1) in D:
                     out.append((D, fam, 1))
+            if with_alien:
+                out.append((D, fam, 2))
     return out
 
 
@@ -278,8 +294,10 @@ def receiver_plan(h, D, fam, rtag):
     maximal = [i for i in D if not any(j != i and (h.anc[j] >> i) & 1 for j in D)]
     prefix = b"refs/heads/r%d" if fam == "h" else b"refs/remotes/o/r%d"
     refs = {prefix % i: h.commits[i] for i in maximal}
-    if rtag:
+    if rtag == 1:
         refs.update(h.tagrefs)
+    elif rtag == 2:
+        refs[b"refs/heads/mine" if fam == "h" else b"refs/remotes/o/mine"] = h.alien[max(D) if D else None]
     ids = ref.closure(h.edges, refs.values())
     if E.reach(h.anc, D) != mask:
         raise HarnessError("not a downset: %r" % (D,))
@@ -354,7 +372,7 @@ def _disk_repo(h, ids, refs, head=None, prefix="r", packed=False, keep_open=Fals
 
 def sender_mem(h):
     if h.mem is None:
-        h.mem = _mem_repo(h, h.objs.keys(), h.refs, h.head)
+        h.mem = _mem_repo(h, h.sender_ids, h.refs, h.head)
     return h.mem
 
 
@@ -364,7 +382,7 @@ def sender_dir(h, storage):
     unreachable objects stay loose)."""
     if storage in h.dirs:
         return h.dirs[storage]
-    d = _disk_repo(h, h.objs.keys(), h.refs, h.head, prefix="s")
+    d = _disk_repo(h, h.sender_ids, h.refs, h.head, prefix="s")
     if storage == "packed":
         git(["-c", "pack.threads=1", "repack", "-a", "-d", "-f", "-q", "--window=10", "--depth=10"], cwd=d)
         git(["prune-packed", "-q"], cwd=d)
@@ -387,7 +405,7 @@ def _role(h, oid, commit_reach):
 
 
 def judge(acc, site, h, repo, before_ids, xfer_ids, want_ids, sent, include_tag, depth, replay, desc,
-          allow_extra=frozenset()):
+          allow_extra=frozenset(), shallow_before=frozenset()):
     """Evaluate oracle clauses (1)-(4) on the receiver ``repo`` (an open dulwich repository).
 
     site       'transport:direction' — first two components of every violation key
@@ -422,7 +440,12 @@ def judge(acc, site, h, repo, before_ids, xfer_ids, want_ids, sent, include_tag,
             need |= ref.closure(h.edges, [c], cut={c})
         clause = "depth-closure"
     else:
-        need = ref.closure(h.edges, xfer_ids)
+        grown = sorted(shallow - set(shallow_before))
+        if grown:
+            acc.violation("%s:shallow:boundary-added-without-depth-request" % site,
+                          "%s: shallow set grew by %r" % (desc, [g.decode()[:10] for g in grown]), replay)
+        # a receiver that was shallow before keeps its boundary: the closure is cut there (and only there)
+        need = ref.closure(h.edges, xfer_ids, cut=shallow & set(shallow_before))
         clause = "closure"
     missing = sorted(o for o in need if o not in store)
     if missing:
@@ -533,7 +556,7 @@ def _tee_add_pack_data(store, sink):
 
 def _desc(h, D, fam, rtag, wants, mode, opts):
     return "dag=%r trees=%r deco=%s peer=%r/%s%s wants=%s %s %s" % (
-        h.dag, h.trees, h.deco, tuple(D), fam, "+tag" if rtag else "",
+        h.dag, h.trees, h.deco, tuple(D), fam, ("", "+tag", "+own-commit")[rtag],
         ",".join(w.decode().split("/", 2)[-1] for w in wants), mode, dict(opts) if opts else "")
 
 
@@ -554,6 +577,8 @@ def case_inproc(acc: Acc, dag, trees, deco, D, fam, rtag, wants, mode, opts=()):
     o = dict(opts)
     depth = o.get("depth")
     storage = o.get("storage", "loose")
+    pre = o.get("pre")  # (ref name, depth): an earlier shallow fetch into the same receiver
+    shallow_before = frozenset()
     wants = tuple(wants)
     D = tuple(D)
     desc = _desc(h, D, fam, rtag, wants, mode, opts)
@@ -570,6 +595,15 @@ def case_inproc(acc: Acc, dag, trees, deco, D, fam, rtag, wants, mode, opts=()):
             src = sender_mem(h)
             repo = _mem_repo(h, rids, rrefs)
             before = store_ids(repo)
+            if pre:
+                try:
+                    src.fetch(repo, determine_wants=lambda refs, depth=None: [h.refs[pre[0]]], depth=pre[1])
+                except Exception as e:
+                    acc.outcome("%s:pre-step-error:%s" % (site, type(e).__name__))
+                    return
+                repo.refs[_xfer_name(pre[0])] = h.refs[pre[0]]
+                before = store_ids(repo)
+                shallow_before = frozenset(repo.get_shallow())
             _tee_add_pack_data(repo.object_store, sink)
             try:
                 src.fetch(repo, determine_wants=lambda refs, depth=None: list(want_ids), depth=depth)
@@ -586,6 +620,17 @@ def case_inproc(acc: Acc, dag, trees, deco, D, fam, rtag, wants, mode, opts=()):
             tmp.append(rdir)
             repo = Repo(rdir)
             before = store_ids(repo)
+            if pre:
+                try:
+                    LocalGitClient().fetch(sdir, repo, determine_wants=lambda refs, depth=None: [h.refs[pre[0]]], depth=pre[1])
+                except Exception as e:
+                    acc.outcome("%s:pre-step-error:%s" % (site, type(e).__name__))
+                    return
+                repo.refs[_xfer_name(pre[0])] = h.refs[pre[0]]
+                repo.close()
+                repo = Repo(rdir)
+                before = store_ids(repo)
+                shallow_before = frozenset(repo.get_shallow())
             _tee_add_pack_data(repo.object_store, sink)
             try:
                 res = LocalGitClient().fetch(sdir, repo, determine_wants=lambda refs, depth=None: list(want_ids), depth=depth)
@@ -675,8 +720,9 @@ def case_inproc(acc: Acc, dag, trees, deco, D, fam, rtag, wants, mode, opts=()):
                     acc.count("packs_with_deltas")
         elif mode != "local-clone":
             sent = set()
-        cls = judge(acc, site, h, repo, before, xfer, want_ids, sent, False, depth, replay, desc)
-        acc.outcome(cls)
+        cls = judge(acc, site, h, repo, before, xfer, want_ids, sent, False, depth, replay, desc,
+                    shallow_before=shallow_before)
+        acc.outcome(cls + (":after-depth%d-fetch" % pre[1] if pre else ""))
         if o.get("fsck") and mode != "mem-fetch":
             _fsck(acc, site, repo.path, replay, desc)
     finally:
@@ -955,6 +1001,8 @@ def _case_proto(acc, h, D, fam, rtag, wants, transport, direction, o, site, desc
 
     depth = o.get("depth")
     storage = o.get("storage", "packed")
+    pre = o.get("pre")
+    shallow_before = frozenset()
     cgit_client = transport in ("cgit-tcp", "cgit-http")
     srv = None
     if transport != "cgit-srv":
@@ -1004,6 +1052,18 @@ def _case_proto(acc, h, D, fam, rtag, wants, transport, direction, o, site, desc
                 if direction == "fetch":
                     target = Repo(rdir)
                     opened.append(target)
+                    if pre:
+                        c0 = _client(transport, {k: v for k, v in o.items() if k in ("pv",)}, where)
+                        if transport != "http":
+                            _net_model(c0, "lazy", srv)
+                        c0.fetch(path, target, determine_wants=lambda refs, depth=None: [h.refs[pre[0]]], depth=pre[1],
+                                 protocol_version=o.get("pv"))
+                        target.refs[_xfer_name(pre[0])] = h.refs[pre[0]]
+                        before = store_ids(target)
+                        shallow_before = frozenset(target.get_shallow())
+                        if srv is not None:
+                            srv.wait_idle()
+                            srv.wire.reset()
                     _tee_fetch_pack(c, client_pack)
                     c.fetch(path, target, determine_wants=lambda refs, depth=None: list(want_ids), depth=depth,
                             protocol_version=o.get("pv"))
@@ -1038,6 +1098,15 @@ def _case_proto(acc, h, D, fam, rtag, wants, transport, direction, o, site, desc
                 cfg = ["-c", "protocol.version=%d" % o.get("pv", 0), "-c", "gc.auto=0", "-c", "maintenance.auto=0",
                        "-c", "fetch.writeCommitGraph=false", "-c", "transfer.unpackLimit=%d" % o.get("unpack", 100)]
                 if direction == "fetch":
+                    if pre:
+                        git(cfg + ["fetch", "-q", "--no-tags", "--depth=%d" % pre[1], url,
+                                   (pre[0] + b":" + _xfer_name(pre[0])).decode()], cwd=rdir, timeout=CASE_TIMEOUT)
+                        srv.wait_idle()
+                        srv.wire.reset()
+                        r0 = Repo(rdir)
+                        before = store_ids(r0)
+                        shallow_before = frozenset(r0.get_shallow())
+                        r0.close()
                     specs = [(w + b":" + _xfer_name(w)).decode() for w in wants]
                     args = cfg + ["fetch", "-q"] + ([] if o.get("tags", 1) else ["--no-tags"]) + \
                         (["--depth=%d" % depth] if depth else []) + [url] + specs
@@ -1149,7 +1218,10 @@ def _case_proto(acc, h, D, fam, rtag, wants, transport, direction, o, site, desc
             notset = [w for w in wants if got.get(w) != h.refs[w]]
             if notset:
                 acc.violation("%s:refs:reported-ok-but-not-set" % site, "%s: %r" % (desc, notset), replay)
-        cls = judge(acc, site, h, repo, before, xfer, want_ids, sent, include_tag, depth, replay, desc)
+        cls = judge(acc, site, h, repo, before, xfer, want_ids, sent, include_tag, depth, replay, desc,
+                    shallow_before=shallow_before)
+        if pre:
+            cls += ":after-depth%d-fetch" % pre[1]
         if server_errors:
             # the transfer succeeded from the client's point of view; a server thread that then hits
             # EOF/reset while waiting for more input is noise (and timing dependent): noted, not counted
@@ -1211,8 +1283,9 @@ def O(**kw):
     return tuple(sorted(kw.items()))
 
 
-def B(kind, what, rows, fams=("h",), rtag=False, maxwants=3, special=None):
-    return dict(kind=kind, what=what, rows=tuple(rows), fams=tuple(fams), rtag=rtag, maxwants=maxwants, special=special)
+def B(kind, what, rows, fams=("h",), rtag=False, maxwants=3, special=None, alien=False):
+    return dict(kind=kind, what=what, rows=tuple(rows), fams=tuple(fams), rtag=rtag, maxwants=maxwants, special=special,
+                alien=alien)
 
 
 def block_cases(h, b):
@@ -1234,7 +1307,17 @@ def block_cases(h, b):
                 out.append((fn, base + (D, "h", 0, ()) + head + (row,)))
         return out
     W = want_sets(h, b["maxwants"])
-    for D, fam, rtag in receiver_states(h, b["fams"], b["rtag"]):
+    if b["special"] == "twostep":
+        # an earlier depth-limited fetch of ONE ref, then the enumerated fetch: rows carry (d1, depth)
+        for D, fam, rtag in receiver_states(h, b["fams"], False, False):
+            for first in sorted(h.refs):
+                for wants in W:
+                    for row in b["rows"]:
+                        r = dict(row)
+                        r["pre"] = (first, r.pop("d1"))
+                        out.append((fn, base + (D, fam, rtag, wants) + head + (O(**r),)))
+        return out
+    for D, fam, rtag in receiver_states(h, b["fams"], b["rtag"], b["alien"]):
         for wants in W:
             for row in b["rows"]:
                 out.append((fn, base + (D, fam, rtag, wants) + head + (row,)))
@@ -1470,8 +1553,9 @@ def run(ctx):
             if cur:
                 tasks.append(("cases", spec, cur))
         bounds[label] = {"histories": len(hist), "cases": per,
-                         "blocks": ["%s fams=%s rtag=%s wants<=%d%s rows=%s" % (
-                             _block_name(b), "".join(b["fams"]), int(b["rtag"]), b["maxwants"],
+                         "blocks": ["%s refs-under=%s peer-variants=%s wants<=%d%s rows=%s" % (
+                             _block_name(b), "+".join(b["fams"]), "plain" + ("+tag" if b["rtag"] else "") +
+                             ("+own-commit" if b["alien"] else ""), b["maxwants"],
                              " [%s]" % b["special"] if b["special"] else "", [dict(r) for r in b["rows"]]) for b in blocks]}
         for k, v in per.items():
             declared[k] = declared.get(k, 0) + v
